@@ -119,6 +119,29 @@ def body_factory(tier, seed):
                                   "(handler ran: %r, written: %r)" % (variant, "accepted" if ran else "mishandled", ran, w[:1]),
                                   {"kind": "redecorated", "version": version, "variant": variant, "frame": '[2,"rd","Reset",{"type":"NotAType","extra":1}]',
                                    "handler_ran": ran, "written": w[:1]})
+        # a request the endpoint issues ITSELF while it handles the CALL of a route that skips validation (from the
+        # coroutine handler, or from the asynchronous after-hook): that request did not ask for skipping and is validated
+        for version in ("1.6", "2.0.1"):
+            for where in ("on", "after"):
+                for route_skips in (True, False):
+                    r = {"action": "Heartbeat", "skip": route_skips,
+                         "on": {"name": "on_heartbeat", "sig": GD.KW, "async": True, "out": ("ret", {"current_time": "t"})},
+                         "after": {"name": "after_heartbeat", "sig": GD.KW, "async": True, "out": ("ret",)}}
+                    r[where]["calls"] = "invalid"
+                    frames = ['[2,"h1","Heartbeat",{}]']
+                    seq, how = D.observe_loop(version, [r], frames, "closed", False, response_timeout=0.05, linger=0.25)
+                    rep.count("own-call-from-%s:%s:%s" % (where, version, route_skips))
+                    own = [e[1] for e in seq if e[0] == "send" and _json.loads(e[1])[0] == 2]
+                    done = [e[2] for e in seq if e[0] == "hook-call-done"]
+                    import ocpp.exceptions as _ex
+                    rejected = len(done) == 1 and isinstance(getattr(_ex, done[0], None), type) and issubclass(getattr(_ex, done[0]), _ex.OCPPError)
+                    if own or not rejected:
+                        rep.violation("C16:own-call-in-%s:%s:%s" % (where, version, "skipping-route" if route_skips else "validating-route"),
+                                      "while handling a CALL of a route declared with skip_schema_validation=%r, the %s issued call(Reset(type='NotAType')) "
+                                      "without asking for skipping: written %r, call() ended with %r (expected: nothing written, a validation error)" % (
+                                          route_skips, "handler" if where == "on" else "after-hook", own[:1], done),
+                                      {"kind": "own-call", "version": version, "where": where, "route_skips": route_skips, "routes": [r], "frames": frames,
+                                       "observation": [list(map(str, e))[:3] for e in seq], "ended": how})
         for c in (cases[25], cases[len(cases) // 2], cases[-1]):
             rep.sample({"stratum": c[0], "version": c[1], "frame": str(c[3])[:200]})
     return body
@@ -135,6 +158,21 @@ def run(rep, tier, seed):
 def replay(d):
     if d.get("kind") == "repeat":
         return GD.replay_repeat(d)
+    if d.get("kind") == "own-call":
+        import json as _json
+        from harness import impl_dispatch as D
+        import ocpp.exceptions as _ex
+        routes = d["routes"]
+        for r in routes:
+            for k in ("on", "after"):
+                r[k]["out"] = tuple(r[k]["out"])
+        seq, how = D.observe_loop(d["version"], routes, d["frames"], "closed", False, response_timeout=0.05, linger=0.25)
+        own = [e[1] for e in seq if e[0] == "send" and _json.loads(e[1])[0] == 2]
+        done = [e[2] for e in seq if e[0] == "hook-call-done"]
+        ok = not own and len(done) == 1 and isinstance(getattr(_ex, done[0], None), type)
+        print("written:", own, "call() ended with:", done)
+        print("HOLDS" if ok else "FAILS")
+        return 0 if ok else 1
     from harness import impl_dispatch as D
     raw = d["frame"] if isinstance(d["frame"], str) else bytes.fromhex(d["frame"]["hex"])
     routes = d["routes"]
